@@ -188,7 +188,9 @@ def main(argv):
                 if e > worst:
                     worst, wn = e, (n[0], n[1], got, ex)
             stats["worst_nodal_error"] = max(stats["worst_nodal_error"], worst)
-            if worst > 1e-6:
+            if not (worst <= 1e-6) or any(not (abs(complex(n[2], n[3]) if (p.kind == "m" and p.freq != 0) else n[2]) < float("inf")) for n in sol["nodes"]):
+                if wn is None:
+                    wn = (sol["nodes"][0][0], sol["nodes"][0][1], sol["nodes"][0][2], rng_v[0]); worst = float("nan")
                 ck.violation("nodal:" + name, "%s (%s, %s): node (%.6g, %.6g) holds %s, the closed-form linear field gives %s (error %.3g of the range)"
                              % (name, p.units, p.ptype, wn[0], wn[1], wn[2], wn[3], worst), dict(files=run.files(), family=name))
                 continue
@@ -214,16 +216,16 @@ def main(argv):
                 qerr = abs(abs(out["q"][1]) - abs(cf["charge"])) / abs(cf["charge"])
                 stats["worst_energy_error"] = max(stats["worst_energy_error"], werr)
                 stats["worst_charge_error"] = max(stats["worst_charge_error"], qerr)
-                if werr > 1e-6:
+                if not (werr <= 1e-6):
                     ck.violation("energy:" + name, "stored energy %.9g J, closed form %.9g J (%s, %s)" % (out["W"][0], cf["energy"], p.units, p.ptype), dict(files=run.files()))
-                if qerr > 1e-6:
+                if not (qerr <= 1e-6):
                     ck.violation("charge:" + name, "conductor charge %.9g C, closed form %.9g C (%s, %s)" % (out["q"][1], cf["charge"], p.units, p.ptype), dict(files=run.files()))
             elif p.kind == "h":
                 Gx, Gy = pv[3], pv[4]
                 Fy = pv[2]
                 # temperatures are reproduced to 1e-6 of their range; gradients divide a small difference by L
                 ferr = math.hypot(Gx - cf["field"][0], Gy - cf["field"][1]) / max(math.hypot(*cf["field"]), 1e-3 * cf["fscale"] / max(pv[5], 1e-300))
-                if abs(Fy - cf["flux"]) > 1e-8 * cf["fscale"] + 1e-6 * abs(cf["flux"]):
+                if not (abs(Fy - cf["flux"]) <= 1e-8 * cf["fscale"] + 1e-6 * abs(cf["flux"])):
                     ck.violation("flux:" + name, "heat flux density %.9g, closed form %.9g" % (Fy, cf["flux"]), dict(files=run.files()))
             else:
                 B1, B2 = pv[1], pv[2]
@@ -232,13 +234,15 @@ def main(argv):
                     ck.violation("field-nan:" + name, "the flux density at %r comes back empty (NaN) (%s, %s, f=%g)" % (cf["probe"], p.units, p.ptype, p.freq), dict(files=run.files(), values=pv))
                     continue
                 ferr = math.sqrt(abs(B1 - cf["field"][0]) ** 2 + abs(B2 - cf["field"][1]) ** 2) / max(abs(cf["field"][0]), 1e-300)
-                if out.get("W") and out["W"][0] is not None:
+                if not out.get("W") or out["W"][0] is None:
+                    ck.violation("energy-missing:" + name, "the stored-energy integral comes back empty (NaN) (%s, %s, f=%g)" % (p.units, p.ptype, p.freq), dict(files=run.files()))
+                else:
                     werr = abs(out["W"][0] - cf["energy"]) / abs(cf["energy"])
                     stats["worst_energy_error"] = max(stats["worst_energy_error"], werr)
-                    if werr > 1e-6:
+                    if not (werr <= 1e-6):
                         ck.violation("energy:" + name, "stored energy %.9g J, closed form %.9g J (%s, f=%g)" % (out["W"][0], cf["energy"], p.units, p.freq), dict(files=run.files()))
             stats["worst_field_error"] = max(stats["worst_field_error"], ferr)
-            if ferr > 1e-6:
+            if not (ferr <= 1e-6):
                 ck.violation("field:" + name, "field at %r deviates from the closed-form uniform field by %.3g (relative)" % (cf["probe"], ferr),
                              dict(files=run.files(), values=pv))
         # ---- non-affine classic: coaxial capacitor, two mesh sizes
